@@ -545,6 +545,98 @@ func progFor(op byte, r *Rng) []byte {
 
 func run(c *Ctx) error {
 	per := c.N(8, 40)
+	eval := func(cs *vmlib.Case, op byte, sample bool) {
+		o := vmlib.Run(cs)
+		desc := vmlib.Describe(cs, o)
+		key := fmt.Sprintf("%x|%x|%x|%d|%v", cs.Code, cs.Args, cs.State, cs.Gas, cs.TxVersion != nil && *cs.TxVersion == 1)
+		nontrivial := o.Err != "EDataStackUnderflow" && o.Err != "ERunLimitExceeded" && o.Err != "EUnsupportedVM"
+		c.Stats.Case(key, nontrivial)
+		if o.Err == "" {
+			c.Stats.Count("ok")
+		} else {
+			c.Stats.Count(o.Err)
+		}
+		if len(o.Err) > 6 && o.Err[:6] == "EOther" {
+			c.Stats.Fail("class=unknown-error: opcode returned an error outside the VM error set: "+o.Err, desc)
+			return
+		}
+		if o.Gas < 0 || o.Gas > cs.Gas {
+			c.Stats.Fail(fmt.Sprintf("class=gas-range: gas left %d outside [0,%d]", o.Gas, cs.Gas), desc)
+		}
+		if msg := numericOracle(cs, o); msg != "" {
+			c.Stats.Fail("class=numeric-semantics: "+msg, desc)
+		} else if _, _, _, isNum := numericExpect(op, cs.Args); isNum && len(cs.Code) == 1 {
+			c.Stats.Count("numeric_oracle_checked")
+		}
+		if sample {
+			c.Stats.Sample(desc)
+		}
+		id := c.Cases.Add(vmlib.CoqModel(cs, o), vmlib.CoqObs(o))
+		c.Stats.CaseIndex[fmt.Sprint(id)] = desc
+	}
+	// ---- fixed boundary corpus (runs in every tier): int64 boundaries of splice operands and
+	// CHECKPREDICATE limits, malformed CHECKMULTISIG keys at every position relative to the match
+	{
+		u := vm.Uint64Bytes
+		str := []byte("helloworld")
+		for _, os := range [][2]uint64{{1<<63 - 1, 1}, {1<<63 - 1, 1<<63 - 1}, {1, 1<<63 - 1}, {1 << 62, 1 << 62}, {1<<63 - 2, 3}, {1<<63 - 10, 10}, {1<<63 - 10, 11}, {1 << 63, 0}, {0, 1 << 63}, {1<<64 - 1, 1}, {3, 1<<64 - 3}} {
+			eval(&vmlib.Case{Code: []byte{0x7f}, Args: [][]byte{str, u(os[0]), u(os[1])}, VMVersion: 1, Gas: 20000, EntryID: make([]byte, 32)}, 0x7f, false)
+		}
+		for _, sz := range []uint64{1<<63 - 1, 1 << 63, 1<<64 - 1, 10, 11} {
+			eval(&vmlib.Case{Code: []byte{0x80}, Args: [][]byte{str, u(sz)}, VMVersion: 1, Gas: 20000, EntryID: make([]byte, 32)}, 0x80, false)
+			eval(&vmlib.Case{Code: []byte{0x81}, Args: [][]byte{str, u(sz)}, VMVersion: 1, Gas: 20000, EntryID: make([]byte, 32)}, 0x81, false)
+		}
+		for _, lim := range []uint64{1<<63 - 1, 1 << 63, 1<<64 - 1, 1<<64 - 50000} {
+			eval(&vmlib.Case{Code: []byte{0xc0}, Args: [][]byte{u(0), {0x51}, u(lim)}, VMVersion: 1, Gas: 5000, EntryID: make([]byte, 32)}, 0xc0, false)
+		}
+		msg := c.Rng.Bytes(32)
+		var pubs [][]byte
+		var privs []ed25519.PrivateKey
+		for i := 0; i < 5; i++ {
+			pub, priv, _ := ed25519.GenerateKey(detRand{c.Rng})
+			pubs = append(pubs, pub)
+			privs = append(privs, priv)
+		}
+		bad := func(k []byte, how int) []byte {
+			switch how {
+			case 0:
+				return k[:31]
+			case 1:
+				return append(append([]byte{}, k...), 7)
+			}
+			return []byte{}
+		}
+		for _, mn := range [][2]int{{1, 2}, {1, 3}, {2, 3}, {2, 4}, {3, 5}} {
+			m, n := mn[0], mn[1]
+			for badPos := 0; badPos < n; badPos++ {
+				for how := 0; how < 3; how++ {
+					// keys in pop order k0..k(n-1); signatures by the first m good keys in pop order
+					var keys, sigs [][]byte
+					for i := 0; i < n; i++ {
+						if i == badPos {
+							keys = append(keys, bad(pubs[i], how))
+						} else {
+							keys = append(keys, pubs[i])
+							if len(sigs) < m {
+								sigs = append(sigs, ed25519.Sign(privs[i], msg))
+							}
+						}
+					}
+					var st [][]byte
+					for i := len(sigs) - 1; i >= 0; i-- {
+						st = append(st, sigs[i])
+					}
+					st = append(st, msg)
+					for i := len(keys) - 1; i >= 0; i-- {
+						st = append(st, keys[i])
+					}
+					st = append(st, u(uint64(m)), u(uint64(n)))
+					eval(&vmlib.Case{Code: []byte{0xad}, Args: st, VMVersion: 1, Gas: 20000, EntryID: make([]byte, 32)}, 0xad, false)
+				}
+			}
+		}
+		c.Stats.Count("boundary-corpus")
+	}
 	for opi := 0; opi < 256; opi++ {
 		op := byte(opi)
 		n := per
@@ -584,33 +676,7 @@ func run(c *Ctx) error {
 			if c.Rng.Chance(20) {
 				cs.State = [][]byte{vmlib.Item(c.Rng)}
 			}
-			o := vmlib.Run(cs)
-			desc := vmlib.Describe(cs, o)
-			key := fmt.Sprintf("%x|%x|%x|%d|%v", cs.Code, cs.Args, cs.State, cs.Gas, cs.TxVersion != nil && *cs.TxVersion == 1)
-			nontrivial := o.Err != "EDataStackUnderflow" && o.Err != "ERunLimitExceeded" && o.Err != "EUnsupportedVM"
-			c.Stats.Case(key, nontrivial)
-			if o.Err == "" {
-				c.Stats.Count("ok")
-			} else {
-				c.Stats.Count(o.Err)
-			}
-			if len(o.Err) > 6 && o.Err[:6] == "EOther" {
-				c.Stats.Fail("class=unknown-error: opcode returned an error outside the VM error set: "+o.Err, desc)
-				continue
-			}
-			if o.Gas < 0 || o.Gas > cs.Gas {
-				c.Stats.Fail(fmt.Sprintf("class=gas-range: gas left %d outside [0,%d]", o.Gas, cs.Gas), desc)
-			}
-			if msg := numericOracle(cs, o); msg != "" {
-				c.Stats.Fail("class=numeric-semantics: "+msg, desc)
-			} else if _, _, _, isNum := numericExpect(op, cs.Args); isNum && len(cs.Code) == 1 {
-				c.Stats.Count("numeric_oracle_checked")
-			}
-			if k == 0 && opi%40 == 7 {
-				c.Stats.Sample(desc)
-			}
-			id := c.Cases.Add(vmlib.CoqModel(cs, o), vmlib.CoqObs(o))
-			c.Stats.CaseIndex[fmt.Sprint(id)] = desc
+			eval(cs, op, k == 0 && opi%40 == 7)
 		}
 	}
 	c.Stats.Count("model_evaluated")
